@@ -1,6 +1,6 @@
 ---- MODULE MC_Address ----
 EXTENDS Address
-ViewNoHist == <<fam, pc, str, byt, addr>>
+ViewNoHist == <<fam, pc, str, byt, addr, held>>
 AllLens == 0..100
 QuickBytes == {B0, B1, <<"z", "d">>, <<"d", "a">>, <<"c", "z">>, <<"a", "c">>}
 ====
